@@ -16,8 +16,12 @@ open OmplModel.Ptc OmplModel.Driver
 
 def marginNs : Int := 500000000
 
+/-- absolute value (ns) of the script clock's origin in the harness (`FAKE_BASE`) -/
+def fakeBase : Int := 1000000000000000
+
 structure DSt where
   fake : Bool
+  sat : Bool := false               -- `timed=sat`: follow the proposed F195 repair instead of the code as it is
   env : Env := { pred := fun _ _ => false, clock := fun _ => 0 }
   w : World Float := {}
   names : List (String × Cond) := []
@@ -26,14 +30,21 @@ structure DSt where
   leafIds : List Nat := []          -- scripted predicates seen so far (ascending)
   async : List Nat := []            -- predicates read by a poller thread: counts not reported
   periods : List (Nat × Int) := []  -- impl ↦ poll period in ns (polled impls only)
+  periodF : List (Nat × Float) := [] -- impl ↦ the period handed to the two-argument constructor (else -1)
   clk : Int := 0                    -- current clock (ns since the start of the script)
   waited : Int := 0                 -- total of the `wait` ops (ns)
   dirty : Int := 0                  -- `waited` at the last op that may change a poller's result
+  synced : Bool := false            -- a `sync` handshake has happened since the last such op
+  flags : List (Nat × Bool) := []   -- predicates whose current script is a bare flag (empty queue) ↦ value
 
 def init (ts : List String) : Option DSt :=
   match ts with
   | ["ptc", "clock=fake"] => some { fake := true }
   | ["ptc", "clock=real"] => some { fake := false }
+  | ["ptc", "clock=fake", "timed=wrap"] => some { fake := true }
+  | ["ptc", "clock=real", "timed=wrap"] => some { fake := false }
+  | ["ptc", "clock=fake", "timed=sat"] => some { fake := true, sat := true }
+  | ["ptc", "clock=real", "timed=sat"] => some { fake := false, sat := true }
   | _ => none
 
 def lookup {β} (xs : List (String × β)) (n : String) : Option β :=
@@ -62,7 +73,7 @@ def unc (d : DSt) : Cond → Bool
     if d.w.st.term i then false
     else
       let per := if p then periodOf d i else 0
-      let stale := p && decide (d.waited - d.dirty < per + marginNs)
+      let stale := p && !d.synced && decide (d.waited - d.dirty < per + marginNs)
       let tl := match k with
         | .timed e => !d.fake && decide (e - marginNs ≤ d.clk) && decide (d.clk ≤ e + marginNs + per)
         | .iter _ => p          -- how often the poller has called the counter is the scheduler's business
@@ -77,7 +88,7 @@ def invString (d : DSt) (before after : Nat → Nat) : String :=
     else if after id > before id then some s!"{id}:{after id - before id}" else none)
   if parts.isEmpty then "-" else ",".intercalate parts
 
-def touch (d : DSt) : DSt := { d with dirty := d.waited }
+def touch (d : DSt) : DSt := { d with dirty := d.waited, synced := false }
 
 /-- the trees of all live names, one per polled impl, not yet terminated -/
 def livePolled (d : DSt) : List Cond :=
@@ -93,6 +104,7 @@ def pollAll (d : DSt) : DSt :=
 
 inductive LeafSpec where
   | pred (id : Nat) | always | never | exact | itc (obj : String) | timed (dur : Float)
+  | timedNs (ns : Int)     -- the time::duration overload
 
 inductive DefSpec where
   | leaf (period : Option Float) (l : LeafSpec)
@@ -109,6 +121,11 @@ def parseLeaf : List String → Option LeafSpec
   | ["timed", bits] => (parseFloatBits? bits).map .timed
   | _ => none
 
+def int64? (s : String) : Option Int :=
+  match parseInt? s with
+  | some n => if -9223372036854775808 ≤ n ∧ n ≤ 9223372036854775807 then some n else none
+  | none => none
+
 def parseDef : List String → Option DefSpec
   | ["or", a, b] => some (.or a b)
   | ["and", a, b] => some (.and a b)
@@ -120,6 +137,7 @@ def parseDef : List String → Option DefSpec
     let dur ← parseFloatBits? dbits
     let itv ← parseFloatBits? ibits
     pure (.leaf (some (timedInterval dur itv)) (.timed dur))
+  | ["timedd", ns] => (int64? ns).map (fun n => .leaf none (.timedNs n))
   | ["costconv", win, ebits] => do
     let w ← parseNat? win
     let e ← parseFloatBits? ebits
@@ -133,6 +151,9 @@ def mkLeaf (d : DSt) (period : Option Float) (l : LeafSpec) : Option (Cond × DS
     | none => false
   let i := d.nextImpl
   let d1 : DSt := { d with nextImpl := i + 1,
+                           periodF := match period with
+                             | some p => (i, p) :: d.periodF
+                             | none => d.periodF,
                            periods := if polled then (i, ((period.getD 0.0) * 1000000000.0).toInt64.toInt) :: d.periods
                                       else d.periods }
   match l with
@@ -150,7 +171,16 @@ def mkLeaf (d : DSt) (period : Option Float) (l : LeafSpec) : Option (Cond × DS
       some (r.1, { d1 with w := { d1.w with st := r.2 } })
     | none => none
   | .timed dur =>
-    let r := mkTimed d1.env i polled (secondsToNs dur) d1.w.st
+    let r := if d.sat then
+        ((.leaf i polled (.timed (endPointSat fakeBase (d1.env.clock d1.w.st.reads) (secondsToNsSat dur))) : Cond),
+          { d1.w.st with reads := d1.w.st.reads + 1 })
+      else mkTimedCoded d1.env fakeBase i polled (secondsToNs dur) d1.w.st
+    some (r.1, { d1 with w := { d1.w with st := r.2 } })
+  | .timedNs ns =>
+    let r := if d.sat then
+        ((.leaf i polled (.timed (endPointSat fakeBase (d1.env.clock d1.w.st.reads) ns)) : Cond),
+          { d1.w.st with reads := d1.w.st.reads + 1 })
+      else mkTimedCoded d1.env fakeBase i polled ns d1.w.st
     some (r.1, { d1 with w := { d1.w with st := r.2 } })
 
 def applyDef (d : DSt) : DefSpec → Option (Cond × DSt)
@@ -179,7 +209,8 @@ def step (d : DSt) (ts : List String) : DSt × String :=
       let arr := vals.toArray
       let pred := fun id' k =>
         if id' = id ∧ k ≥ base then (arr[k - base]?).getD tail else old id' k
-      (touch { d with env := { d.env with pred := pred }, leafIds := insertSorted id d.leafIds }, "ok")
+      let fl := (d.flags.filter (fun p => p.1 != id)) ++ (if vals.isEmpty then [(id, tail)] else [])
+      (touch { d with env := { d.env with pred := pred }, leafIds := insertSorted id d.leafIds, flags := fl }, "ok")
     | _, _, _ => (d, "bad-op")
   | "def" :: name :: rest =>
     match parseDef rest with
@@ -234,6 +265,14 @@ def step (d : DSt) (ts : List String) : DSt × String :=
         let d2 := if d.fake then d1 else setClock d1 (d1.clk + ns)
         (pollAll d2, "ok")
       | none => (d, "bad-op")
+    else if op == "period" then
+      match lookup d.names a with
+      | some c =>
+        let p := match d.periodF.find? (fun q => q.1 == c.impl) with
+          | some q => q.2
+          | none => -1.0
+        (d, s!"period={floatBits p}")
+      | none => (d, "unknown")
     else if op == "await" || op == "release" then
       -- handshake with a poller thread blocked inside a gated predicate invocation (harness side);
       -- the model's answer after `term` does not depend on where the poller is
@@ -251,9 +290,9 @@ def step (d : DSt) (ts : List String) : DSt × String :=
       | some t =>
         match solveDouble t with
         | .direct dur =>
-          let dn := secondsToNs dur
+          let dn := if d.sat then secondsToNsSat dur else secondsToNs dur
           let u := !d.fake && decide (-marginNs ≤ dn) && decide (dn ≤ marginNs)
-          (d, s!"polled=0 period={floatBits (-1.0)} v={if u then "?" else b01 (decide (dn < 0))}")
+          (d, s!"polled=0 period={floatBits (-1.0)} v={if u then "?" else b01 (decide (d.clk > (if d.sat then endPointSat fakeBase d.clk dn else endPointCoded fakeBase d.clk dn)))}")
         | .polled dur itv =>
           let p := timedInterval dur itv
           (d, s!"polled={b01 (decide (0.0 < p))} period={floatBits p} v=0")
@@ -296,6 +335,30 @@ def step (d : DSt) (ts : List String) : DSt × String :=
     | some _, some k, some _ => if 1 ≤ k ∧ k ≤ 1000000 then (touch d, "ok") else (d, "bad-op")
     | _, _, _ => (d, "bad-op")
   | ["settle"] => (touch d, "ok")
+  | ["sync"] =>
+    -- handshake: the (single) clock-reading poller has polled and stored since the last change
+    if d.fake then ({ pollAll d with synced := true }, "ok") else (d, "bad-op")
+  | ["solvefn", id, bits] =>
+    -- Planner::solve(fn, checkInterval) = solve(PlannerTerminationCondition(fn, checkInterval)); the probe
+    -- planner evaluates what it is handed three times
+    match parseNat? id, parseFloatBits? bits with
+    | some id, some itv =>
+      let i := d.nextImpl
+      let d0 := { d with nextImpl := i + 1, leafIds := insertSorted id d.leafIds }
+      if 0.0 < itv then
+        let v := match d0.flags.find? (fun p => p.1 == id) with
+          | some p => let c := b01 p.2; c ++ c ++ c
+          | none => "?"
+        (touch { d0 with async := if d0.async.contains id then d0.async else id :: d0.async },
+          s!"polled=1 period={floatBits itv} vals={v} inv=-")
+      else
+        let c : Cond := .leaf i false (.pred id)
+        let r1 := eval d0.env c d0.w.st
+        let r2 := eval d0.env c r1.2
+        let r3 := eval d0.env c r2.2
+        (touch { d0 with w := { d0.w with st := r3.2 } },
+          s!"polled=0 period={floatBits itv} vals={b01 r1.1}{b01 r2.1}{b01 r3.1} inv={id}:3")
+    | _, _ => (d, "bad-op")
   | ["solnclear"] =>
     let st := clearSolns d.w.st
     (touch { d with w := { d.w with st := st } }, s!"exact={b01 (hasExact st.solns)}")
